@@ -1,6 +1,7 @@
 // Two-container operations: copy/move construction, copy/move assignment, swap, assign(sv), append(sv),
 // across inline capacities (NA = destination, NB = source) and allocator configurations.
 // Decides (tagged): C01 C02 C03 C04 C05 C06 C07 C09 C10 C18(a).
+#include "vf_pre.hpp"
 #include "vf.hpp"
 
 #ifndef VF_ELEM
